@@ -6,8 +6,9 @@ fed key-permuted but equal documents and differently ordered file creation):
   * ExperimentPackage.packageFromLocation + Experiment.experimentFromPackage + validateExperiment on FlowIR
     and DSL 2 packages written to a scratch directory ("pkg" cases; names, edges, environments, resolved
     configurations, memoization hashes),
-and in-process: FlowIR.override_object, ComponentSpecification._memoization_info_to_hash, plus a static scan
-(Python ast) of the anchored files for iteration over unordered sources.
+and in-process: FlowIR.override_object, ComponentSpecification._memoization_info_to_hash, dsl.namespace_to_flowir
+(S5: the loop that rewrites output references, S6: component / environment names; each also on a key-permuted copy
+of the document), plus a static scan (Python ast) of the anchored files for iteration over unordered sources.
 
 "Every process" is represented by: 6 processes (hash seeds 0,1,2,3,random,4; six key orders of every
 document; six creation orders of every file set) on the implementation side, and by "every permutation
@@ -30,8 +31,12 @@ ASSUMPTIONS = [
     '"in every process" is represented by every permutation oracle at the modelled iteration sites (S1-S5 of '
     'coq/Det/Model.v); an unordered iteration elsewhere is only caught by the static scan of the four anchored files '
     'and by the multi-seed / permuted-document runs',
-    'site S5 (sequential str.replace of output references in set order, dsl.py) is modelled but its invariance is '
-    'not proved: covered by the multi-seed runs on DSL packages with several output references only',
+    'site S5 (sequential str.replace of output references, dsl.py): the reference strings and the data references '
+    'that replace them are recomputed by the harness with the real OutputReference.from_str/.split; the loop itself '
+    '(order, str.replace) is compared with Det.Model.replace_refs_sorted',
+    'S6 (component / environment naming of namespace_to_flowir) is modelled without oracle from the workflows '
+    '(name, steps mapping, execute list), the component template names and the entry instance; rejections of a '
+    'namespace for reasons outside these fields are not modelled (the generators do not produce them)',
     'YAML documents have no repeated keys (wfk); variable values are str/int/bool',
     'directory listing order is varied through the creation order of the files (tmpfs/ext4 list in an order that '
     'depends on it), not controlled directly',
@@ -616,6 +621,251 @@ def inprocess(ctx):
                      'C15 S3: _memoization_info_to_hash buffer vs Det.Model.ser_pi')
 
 
+# ------------------------------------------------------------------ in-process: S5, output references -> data references
+S5_SPELLINGS = ['<a>:ref', '<b>:output', '<a>/out.txt:ref', '<b>/dir/o.txt:ref', '<a>:output', '<b>:ref',
+                '<b/x<entry-instance/a>>:ref', '<b/x<entry-instance/a>:ref', '<a/y<entry-instance/b>/dir/o.txt>:ref',
+                '<a/<entry-instance/b>>:output', 'plain', 'stage0.a:ref-like', '<b/dir/o.txt>:ref', '<a/out.txt>:copy']
+
+
+def gen_s5_namespace(rng):
+    def text(lo, hi):
+        return ' '.join(rng.sample(S5_SPELLINGS, rng.randint(lo, hi)))
+    consumers = ['c', 'd'][:rng.randint(1, 2)]
+    steps = {'a': 'echo', 'b': 'echo'}
+    execute = [{'target': '<a>', 'args': {'message': 'hello a'}}, {'target': '<b>', 'args': {'message': 'hello b'}}]
+    for c in consumers:
+        steps[c] = 'echo'
+        args = {'message': text(1, 3)}
+        if rng.random() < 0.7:
+            args['other'] = text(1, 3)
+        execute.append({'target': '<%s>' % c, 'args': args})
+    return {
+        'entrypoint': {'entry-instance': 'main', 'execute': [{'target': '<entry-instance>', 'args': {}}]},
+        'workflows': [{'signature': {'name': 'main', 'parameters': []}, 'steps': steps, 'execute': execute}],
+        'components': [{'signature': {'name': 'echo', 'parameters': [{'name': 'message'}, {'name': 'other', 'default': 'dflt'}]},
+                        'command': {'executable': 'echo',
+                                    'arguments': rng.choice(['%(message)s %(other)s', '%(other)s -- %(message)s',
+                                                             '-m %(message)s', '%(message)s %(other)s %(message)s']),
+                                    'expandArguments': 'none'}}]}
+
+
+def s5_inprocess(ctx, only=None):
+    """the loop of ComponentFlowIR.convert_outputreferences_to_datareferences on the real code (through
+    namespace_to_flowir) vs Det.Model.replace_refs_sorted; the set of reference strings and their replacements are
+    recomputed here with the real OutputReference.from_str / .split"""
+    import re
+    import experiment.model.frontends.dsl as dsl
+    rng = ctx.rng
+    pat = re.compile(dsl.OutputReferenceVanilla)
+    orig = dsl.ComponentFlowIR.convert_outputreferences_to_datareferences
+    records = []
+
+    def wrapper(self, uid_to_name, location):
+        before = self.flowir.get('command', {}).get('arguments', '')
+        params = dict(self.scope.parameters)
+        raised = True
+        try:
+            r = orig(self, uid_to_name, location)
+            raised = False
+            return r
+        finally:
+            records.append({'before': before, 'params': params, 'uid_to_name': dict(uid_to_name), 'raised': raised,
+                            'after': self.flowir.get('command', {}).get('arguments'), 'step': list(self.scope.location)})
+    docs = [c['doc'] for c in corpus_cases() if c['kind'] == 'pkg' and c.get('format') == 'dsl']
+    for _ in range(60 if ctx.tier == 'quick' else 600):
+        docs.append(gen_s5_namespace(rng))
+    for _ in range(5 if ctx.tier == 'quick' else 40):
+        docs.append(gen_dsl_pkg(rng)['doc'])
+    if only is not None:
+        docs = only
+    terms, descr = [], []
+    dsl.ComponentFlowIR.convert_outputreferences_to_datareferences = wrapper
+    try:
+        for doc in docs:
+            del records[:]
+            try:
+                dsl.namespace_to_flowir(dsl.Namespace(**copy.deepcopy(doc)))
+                outcome = 'converted'
+            except Exception as e:
+                outcome = 'rejected:' + type(e).__name__
+            ctx.count('s5:namespace:' + outcome)
+            for rec in records:
+                if rec['raised'] or not isinstance(rec['before'], str):
+                    ctx.count('s5:component:raised')
+                    continue
+                found = set()
+                for text in [rec['before']] + [v for v in rec['params'].values() if isinstance(v, str)]:
+                    for m in pat.finditer(text):
+                        if dsl.OutputReference.from_str(m.group(0)).method:
+                            found.add(m.group(0))
+                mapping = {}
+                for r in found:
+                    ref = dsl.OutputReference.from_str(r)
+                    try:
+                        producer, fileref = ref.split(scopes=rec['uid_to_name'])
+                    except ValueError:
+                        continue
+                    stage, name = rec['uid_to_name'][producer]
+                    new = 'stage%d.%s' % (stage, name)
+                    if fileref:
+                        new = '/'.join((new, fileref))
+                    mapping[r] = ':'.join((new, ref.method))
+                nested = any(a != b and (a in b or a in mapping[b]) for a in mapping for b in mapping)
+                ctx.case(['s5', rec['before'], sorted(mapping.items())], len(mapping) >= 2)
+                ctx.count('s5:refs=%d%s' % (min(len(mapping), 4), ':nested' if nested else ''))
+                terms.append(cpair(cpair(clist(sorted(mapping.items()), lambda kv: cpair(cstr(kv[0]), cstr(kv[1]))),
+                                         cstr(rec['before'])), cstr(rec['after'])))
+                descr.append({'doc': doc, 'step': rec['step'], 'arguments_before': rec['before'],
+                              'replacements': sorted(mapping.items()), 'impl_arguments': rec['after']})
+                if nested:
+                    ctx.sample({'s5_arguments_before': rec['before'], 'replacements': sorted(mapping.items()),
+                                'arguments_after': rec['after']}, limit=2)
+    finally:
+        dsl.ComponentFlowIR.convert_outputreferences_to_datareferences = orig
+    bad = ctx.model_mismatches(HEADER, terms, 'check_replace', chunk=150, name='replace')
+    for i in bad:
+        ctx.disagree(descr[i], descr[i]['impl_arguments'], 'replace_refs_sorted id/rev',
+                     'C15 S5: arguments after convert_outputreferences_to_datareferences vs Det.Model.replace_refs_sorted')
+
+
+# ------------------------------------------------------------------ in-process: S6, component / environment naming
+NAME_POOL = ['a', 'b', 'a-I', 'stage1.a', 'stage0.b', 'x.y', 'b-I', 'stage1.b-I', 'gen', 'stage2.gen', 'a-II',
+             'stage0.a', 'stage1.a-I', 'post', 'stage10.post']
+ENV_POOL = [None, None, {}, {'DEFAULTS': 'PATH', 'FOO': 'foo'}, {'FOO': 'foo', 'DEFAULTS': 'PATH'},
+            {'DEFAULTS': 'PATH', 'FOO': 'bar'}, {'A': '1', 'B': 2, 'C': None}, {'B': 2, 'A': '1'}, {'C': None, 'B': '2', 'A': 1},
+            {'ONLY': None}]
+
+
+def gen_naming_namespace(rng):
+    """nested workflows whose step names repeat, collide with de-duplicated names (a, a, a-I) or differ by a
+    stage prefix; steps mappings and execute lists in independent random orders; environments that are equal up to
+    key order / None values"""
+    nwf = rng.choice([1, 2, 2, 3])
+    wnames = ['main', 'inner', 'deep'][:nwf]
+    workflows = []
+    for wi, wn in enumerate(wnames):
+        k = rng.randint(1, 4)
+        names = rng.sample(NAME_POOL, k)
+        if rng.random() < 0.06:
+            names[0] = rng.choice(['a1', 'stage1.7'])       # not a valid component name: the namespace is rejected
+        steps, args = {}, {}
+        for n in names:
+            r = rng.random()
+            if wi + 1 < nwf and r < 0.45:
+                steps[n] = wnames[wi + 1]
+                args[n] = {}
+            else:
+                steps[n] = rng.choice(['echo', 'echo', 'plain'])
+                args[n] = {'message': 'hello from %s' % n}
+                if steps[n] == 'echo' and rng.random() < 0.7:
+                    e = rng.choice(ENV_POOL)
+                    if e is not None:
+                        args[n]['environment'] = dict(e)
+        if wi + 1 < nwf and wnames[wi + 1] not in steps.values():
+            steps[names[-1]] = wnames[wi + 1]
+            args[names[-1]] = {}
+        order = list(steps)
+        rng.shuffle(order)
+        skeys = list(steps)
+        rng.shuffle(skeys)
+        workflows.append({'signature': {'name': wn, 'parameters': []},
+                          'steps': {n: steps[n] for n in skeys},
+                          'execute': [{'target': '<%s>' % n, 'args': args[n]} for n in order]})
+    return {
+        'entrypoint': {'entry-instance': 'main', 'execute': [{'target': '<entry-instance>', 'args': {}}]},
+        'workflows': workflows,
+        'components': [
+            {'signature': {'name': 'echo', 'parameters': [{'name': 'message'},
+                                                          {'name': 'environment', 'default': {'DEFAULTS': 'PATH', 'FOO': 'foo'}}]},
+             'command': {'environment': '%(environment)s', 'executable': 'echo', 'arguments': '%(message)s',
+                         'expandArguments': 'none'}},
+            {'signature': {'name': 'plain', 'parameters': [{'name': 'message'}]},
+             'command': {'executable': 'echo', 'arguments': '%(message)s', 'expandArguments': 'none'}}]}
+
+
+def _naming_of(dsl, doc):
+    """(names, envs, env_names) of the real namespace_to_flowir: [(location, stage, name)] in naming order, the
+    environment of every component and the command.environment it was given; None if the namespace is rejected"""
+    orig = dsl.ComponentFlowIR.convert_outputreferences_to_datareferences
+    seen = []
+
+    def wrapper(self, uid_to_name, location):
+        seen.append((list(self.scope.location), self.environment, self.flowir.get('command', {}).get('environment'),
+                     dict(uid_to_name)))
+        return orig(self, uid_to_name, location)
+    dsl.ComponentFlowIR.convert_outputreferences_to_datareferences = wrapper
+    try:
+        try:
+            dsl.namespace_to_flowir(dsl.Namespace(**copy.deepcopy(doc)))
+        except experiment.model.errors.DSLInvalidError as e:
+            if not seen:
+                return None, 'DSLInvalidError'
+            raise
+    finally:
+        dsl.ComponentFlowIR.convert_outputreferences_to_datareferences = orig
+    uid = seen[-1][3]
+    names = [(list(loc), sn[0], sn[1]) for loc, sn in uid.items()]
+    if [n[0] for n in names] != [x[0] for x in seen]:
+        raise RuntimeError('c15 naming driver: components converted in another order than they were named')
+    envs = [None if x[1] is None else [(k, None if v is None else str(v)) for k, v in x[1].items()] for x in seen]
+    return (names, envs, [x[2] for x in seen]), 'converted'
+
+
+def naming_inprocess(ctx, only=None):
+    import experiment.model.frontends.dsl as dsl
+    global experiment
+    import experiment.model.errors
+    rng = ctx.rng
+    docs = [c['doc'] for c in corpus_cases() if c['kind'] == 'pkg' and c.get('format') == 'dsl']
+    for _ in range(80 if ctx.tier == 'quick' else 800):
+        docs.append(gen_naming_namespace(rng))
+    for _ in range(6 if ctx.tier == 'quick' else 40):
+        docs.append(gen_dsl_pkg(rng)['doc'])
+    if only is not None:
+        docs = only
+    nterms, ndescr, eterms, edescr = [], [], [], []
+    for doc in docs:
+        res, outcome = _naming_of(dsl, doc)
+        ctx.count('naming:' + outcome)
+        # the predicate: the same names and environment names for a key-permuted but equal document
+        for _ in range(1 if only is None else 8):
+            res2, outcome2 = _naming_of(dsl, permute_keys(rng, copy.deepcopy(doc)))
+            if (res is None) != (res2 is None) or (res is not None and (res[0], res[2]) != (res2[0], res2[2])):
+                ctx.fail({'doc': doc, 'a': res and [res[0], res[2]], 'b': res2 and [res2[0], res2[2]]},
+                         'component / environment names differ for a key-permuted but equal DSL document', [])
+                break
+        wfs = [(w['signature']['name'], list(w['steps'].items()), [x['target'][1:-1] for x in w['execute']])
+               for w in doc.get('workflows', [])]
+        comps = [c['signature']['name'] for c in doc.get('components', [])]
+        ns = '(mk_ns %s %s %s)' % (
+            clist(wfs, lambda w: '(mk_wf %s %s %s)' % (cstr(w[0]), clist(w[1], lambda kv: cpair(cstr(kv[0]), cstr(kv[1]))),
+                                                        clist(w[2], cstr))),
+            clist(comps, cstr), cstr(doc['entrypoint']['entry-instance']))
+        impl = None if res is None else res[0]
+        nterms.append(cpair(ns, copt(impl, lambda l: clist(l, lambda n: cpair(clist(n[0], cstr),
+                                                                              cpair('%d%%N' % n[1], cstr(n[2])))))))
+        ndescr.append({'doc': doc, 'impl_names': impl})
+        dup = impl is not None and len(set(n[0][-1] for n in impl)) < len(impl)
+        ctx.case(['naming', doc], impl is not None and len(impl) >= 2)
+        ctx.count('naming:components=%s%s' % ('rejected' if impl is None else min(len(impl), 6), ':repeated_step_name' if dup else ''))
+        if res is not None:
+            eterms.append(cpair(clist(res[1], lambda e: copt(e, lambda l: clist(l, lambda kv: cpair(cstr(kv[0]), copt(kv[1], cstr))))),
+                                clist(res[2], lambda n: copt(n, cstr))))
+            edescr.append({'doc': doc, 'environments': res[1], 'impl_environment_names': res[2]})
+            ctx.count('naming:distinct_env_names', len(set(x for x in res[2] if x and x.startswith('env'))))
+            if dup:
+                ctx.sample({'naming': [['/'.join(n[0]), 'stage%d.%s' % (n[1], n[2])] for n in impl], 'environments': res[2]},
+                           limit=2)
+    bad = ctx.model_mismatches(HEADER, nterms, 'check_names', chunk=100, name='names')
+    for i in bad:
+        ctx.disagree(ndescr[i], ndescr[i]['impl_names'], 'Det.Model.dsl_names',
+                     'C15 S6: component names given by namespace_to_flowir vs Det.Model.dsl_names')
+    bad = ctx.model_mismatches(HEADER, eterms, 'check_envs', chunk=100, name='envs')
+    for i in bad:
+        ctx.disagree(edescr[i], edescr[i]['impl_environment_names'], 'Det.Model.env_names',
+                     'C15 S6: environment names given by namespace_to_flowir vs Det.Model.env_names')
+
+
 def _walk(o):
     yield o
     if isinstance(o, dict):
@@ -638,10 +888,6 @@ KNOWN_SITES = {
     ('flowir.py', 'FlowIR.override_object', 'iterate-set', 'keys_common'):
         ('benign', 'each common key only replaces the value stored under an existing key: no order is observable '
                    '(covered by C15_perm_invariant_override: merge_common follows the keys of old)'),
-    ('dsl.py', 'ComponentFlowIR.convert_outputreferences_to_datareferences', 'iterate-set',
-     'parameters_output.union(arguments_output)'):
-        ('oracle', 'S5 dsl.ComponentFlowIR.convert_outputreferences_to_datareferences: for ref_str in '
-                   'parameters_output.union(arguments_output)'),
     ('dsl.py', 'ComponentFlowIR.convert_outputreferences_to_datareferences', 'iterate-set', 'arguments_output'):
         ('benign', 'existence search (for ... break / else): the result is a boolean'),
     ('dsl.py', 'lightweight_validate', 'iterate-set', 'set(variables).intersection(parameters)'):
@@ -684,6 +930,11 @@ SORTED_SITES = [
      'S4 dsl.ComponentFlowIR.convert_outputreferences_to_datareferences: sorted(parameters_legacy.union(arguments_legacy))'),
     ('dsl.py', 'namespace_to_flowir.hash_environment', 'sorted(environment)',
      'S4 dsl.namespace_to_flowir.hash_environment: sorted(environment)'),
+    # S5 after the repair of F15b (before: an 'iterate-set' hit on parameters_output.union(arguments_output), which
+    # is an UNKNOWN site again if the sorted() is removed)
+    ('dsl.py', 'ComponentFlowIR.convert_outputreferences_to_datareferences',
+     'sorted(parameters_output.union(arguments_output))',
+     'S5 dsl.ComponentFlowIR.convert_outputreferences_to_datareferences: sorted(parameters_output.union(arguments_output))'),
 ]
 SET_METHODS = {'union', 'intersection', 'difference', 'symmetric_difference'}
 
@@ -880,7 +1131,13 @@ def run(ctx):
                 '(references, replicas, environments, nested workflows with repeated step names, 0-3 variable files) '
                 'instantiated as an Experiment in the same 6 processes; non-trivial = loads and has >= 2 components.  '
                 'override / memo cases = random nested dictionaries through override_object / '
-                '_memoization_info_to_hash in-process, with key-permuted copies')
+                '_memoization_info_to_hash in-process, with key-permuted copies.  s5 case = one component of a generated '
+                'DSL namespace whose step arguments hold 1-6 output references (plain, with paths, nested inside the path '
+                'of another one): arguments before / after convert_outputreferences_to_datareferences; non-trivial = at '
+                'least two references are replaced.  naming case = DSL namespace with 1-3 nested workflows, step names '
+                'that repeat / collide with de-duplicated names / carry stage prefixes, environments equal up to key order '
+                'and None values, through namespace_to_flowir as generated and key-permuted; non-trivial = converted '
+                'with >= 2 components')
     quick = ctx.tier == 'quick'
     vars_cases = [c for c in corpus_cases() if c['kind'] == 'vars']
     pkg_cases = [c for c in corpus_cases() if c['kind'] == 'pkg']
@@ -894,6 +1151,8 @@ def run(ctx):
     static_scan(ctx)
     explore(ctx, vars_cases, pkg_cases)
     inprocess(ctx)
+    s5_inprocess(ctx)
+    naming_inprocess(ctx)
     ctx.extra['processes'] = {'hash_seeds': SEEDS, 'document_variants': len(SEEDS)}
 
 
@@ -902,6 +1161,15 @@ def replay(ctx, path):
     c = d.get('case') or d.get('first', {}).get('case') or {}
     if isinstance(c, dict) and 'case' in c:
         c = c['case']
+    if isinstance(c, dict) and c.get('kind') is None and isinstance(c.get('doc'), dict):
+        # an in-process DSL case (S5 reference rewriting / S6 naming)
+        naming_inprocess(ctx, [c['doc']])
+        s5_inprocess(ctx, [c['doc']])
+        for f in ctx.failures:
+            print('REPRODUCED: %s: %s' % (f['what'], json.dumps(f['case'])[:600]))
+        for f in ctx.disagreements:
+            print('DISAGREEMENT: %s' % (json.dumps(f, default=str)[:600],))
+        return 1 if (ctx.failures or ctx.disagreements) else 0
     if not isinstance(c, dict) or c.get('kind') not in ('vars', 'pkg'):
         if isinstance(c, dict) and 'old' in c and 'new' in c:
             import experiment.model.frontends.flowir as F
